@@ -104,6 +104,11 @@ func Verif_C14_HeaderRoundTrip() {
 	}
 }
 
+type verifOKStatusErr struct{}
+
+func (verifOKStatusErr) Error() string              { return "failed, but says OK" }
+func (verifOKStatusErr) GRPCStatus() *status.Status { return status.New(codes.OK, "m") }
+
 // Verif_C14_Renderer: a unary handler returns an arbitrary non-OK code (all 2^32
 // values) through the real handleMethod and DefaultErrorRenderer; the HTTP request
 // context is cancelled or not, and independently the RPC context derived from a
@@ -113,6 +118,13 @@ func Verif_C14_HeaderRoundTrip() {
 func Verif_C14_Renderer() {
 	code := codes.Code(zv.Uint32("code"))
 	zv.Assume(code != codes.OK)
+	// a failure whose own status says OK (an error type with a GRPCStatus method
+	// can do that; status.Error cannot): the handler did fail, so what is rendered
+	// and what the caller recovers is Internal, never success
+	okErr := zv.Bool("error-carries-an-OK-status")
+	if okErr {
+		zv.Assume(code == codes.Internal)
+	}
 	reqCancelled := zv.Bool("request-context-cancelled")
 	rpcExpired := zv.Bool("rpc-timeout-expired")
 	hooks := &verifHooks{}
@@ -124,6 +136,9 @@ func Verif_C14_Renderer() {
 		}
 		if reqCancelled {
 			rcancel() // the client goes away before the handler returns
+		}
+		if okErr {
+			return nil, verifOKStatusErr{}
 		}
 		return nil, status.Error(code, "m")
 	}
